@@ -24,19 +24,19 @@ func init() {
 			"K-owner — who may write the caches that a restart rebuilds from rows: Index.deletes is (re)assigned only by the loader of 'deleted' rows (before it reads them) or on a freshly allocated Index that is not loaded afterwards; its map is written only by the constructor, the loader and the live updater, and every call of the live updater comes after a successful CommitBatch with a claim taken from mm.deletes; New's success returns are dominated by both loaders or lie in the about-to-reindex branch with a fresh cache; Index.needs/neededBy/readyReindex are written only by the tabled functions, and the in-memory adder is called only from the 'missing' row loader or after the matching 'missing' row was written successfully; Corpus fields are written only by *Corpus methods (or the constructor) that are reachable only from the load entry (scanFromStorage) or the live entry (addBlob); Corpus.deletes is written only by its 'deleted'-row loader, which dominates every success return of scanFromStorage, and by the live updater, every caller of which passes a claim of mm.deletes; Index.corpus is only ever NewCorpusFromStorage(x.s) of the same index and Index.s is never replaced on a live index (one reasoned test hook); mutationMap.deletes is written only by noteDelete. " +
 			"K-delete-row — every mm.noteDelete(cl) is dominated by an mm.Set of a keyDeleted row on the same mm whose key parts are cl.Target(), cl.ClaimDateString(), cl.Blob().BlobRef() in the order kvDeleted reads them (or by a successful call of a function all of whose success returns are so dominated), and every keyDeleted row put into mm is followed on all paths by noteDelete on that mm. " +
 			"K-live — in every caller of Index.commit/Corpus.addBlob (today ReceiveBlob only): addBlob receives the same mutationMap commit wrote, is dominated by commit's success, runs under the index write lock, and every path from a successful commit to a success return passes addBlob unless the corpus is nil; commit applies mm.deletes to the index cache only after CommitBatch succeeded and writes every (k,v) of mm.kv into the batch it commits; rows of a kind the corpus merges are never written to the store behind the corpus's back (direct KeyValue.Set/Delete sites write only non-slurped kinds; one reasoned exception); every success return of addBlob comes after its merge loops over mm.kv and mm.deletes (violated on the current tree by the duplicate-blob early return: a delete claim that arrived before its target is committed twice, the second time with its 'deleted' and 'claim' rows, and the live corpus skips that second mutation map). " +
-			"K-inval — derived live state is invalidated / re-derived when its inputs change. Generation-stamped caches are discovered, not named: a struct field of pkg/index (today lazySortedPermanodes.ofGen) that is compared with or assigned from an integer field of Corpus/Index (today Corpus.gen). (reader, #cache-protocol) a forward abstract interpretation of every function touching the cache fields (callees on the same cache object analysed in context) decides that content which may date from an older generation is returned, stored or passed on only on the stamp==generation edge, that a cache field is rebuilt only from such content, and that the stamp is assigned only the generation itself and only when every cache field it then vouches for was cleared, rebuilt, or is on that edge. (generation, #gen-store) every assignment of the generation on an existing corpus is `itself + positive constant`; its address is never handed out. (writer, #inval:T.f) the set of locations (struct field, or elements of a named map/slice type, of pkg/index and pkg/types/camtypes) read by the functions that compute the cache content is collected over the resolved call structure (static calls, the pnTime functions stored into the cache object, restricted-CHA invokes, callbacks; branches contradicted by constant string arguments such as signerFilter==\"\" are pruned); every write of such a location in a function reachable from Corpus.addBlob (static calls, the corpusMergeFunc dispatch, function parameters such as mutateFileInfo's fn; writes through map/slice parameters are attributed to the argument; sort.*/slices.Sort* count as in-place writes) must, on every path through addBlob that executes it, also pass an increment of the generation: the increment dominates the write in the same function, or every path from the write to a return of that function passes one, or (recursively) this holds at every call site up to addBlob; a callee that increments on all its paths counts as an increment; `go` never does. Both placements (once in addBlob, or in every writer) are accepted; an uncovered writer is reported with function and location. (#inval-outside) a write of such a location in any other module function is allowed only under scanFromStorage; (#load-on-fresh-corpus) scanFromStorage runs only on a Corpus its caller just allocated, which is why the load path needs no increment; (#no-cache-reader) no cache builder is reachable from addBlob/scanFromStorage (undecided otherwise). (#derived) PermanodeMeta fields assigned by restoreInvariants (attr, signer) are derived from the other receiver fields it reads (Claims): on the live path every write of Claims on an existing permanode is followed, on every path to a return with building==false, by a call on the same permanode of a method that writes attr/signer (or a direct assignment); Corpus.building is assigned only by scanFromStorage and false on its success returns. " +
-			"NOT decided: that the merge functions compute from a row the same state live as at load for every history (e.g. ordering effects, the `building`-only update of hasLegacySHA1; that fixupLastClaim's incremental update equals restoreInvariants' full rebuild), that every reader of the caches holds the index lock, that the read set is exact (it is an over-approximation by type: e.g. any FileInfo.Time write counts), generation increments placed in callers of addBlob (reported as uncovered), equality of query answers for any concrete arrival history or sorted.KeyValue backend, behaviour of out-of-order arrival, contents of rows.",
+			"K-inval — derived live state is invalidated / re-derived when its inputs change. Generation-stamped caches are discovered, not named: a struct field of pkg/index (today lazySortedPermanodes.ofGen) that is compared with or assigned from an integer field of Corpus/Index (today Corpus.gen). (reader, #cache-protocol) a forward abstract interpretation of every function touching the cache fields (callees on the same cache object analysed in context) decides that content which may date from an older generation is returned, stored or passed on only on the stamp==generation edge, that a cache field is rebuilt only from such content, and that the stamp is assigned only the generation itself and only when every cache field it then vouches for was cleared, rebuilt, or is on that edge. (generation, #gen-store) every assignment of the generation on an existing corpus is `itself + positive constant`; its address is never handed out. (writer, #inval:T.f) the set of locations (struct field, or elements of a named map/slice type, of pkg/index and pkg/types/camtypes) read by the functions that compute the cache content is collected over the resolved call structure (static calls, the pnTime functions stored into the cache object, restricted-CHA invokes, callbacks; branches contradicted by constant string arguments such as signerFilter==\"\" are pruned); every write of such a location in a function reachable from Corpus.addBlob (static calls, the corpusMergeFunc dispatch, function parameters such as mutateFileInfo's fn; writes through map/slice parameters are attributed to the argument; sort.*/slices.Sort* count as in-place writes) must, on every path through addBlob that executes it, also pass an increment of the generation: the increment dominates the write in the same function, or every path from the write to a return of that function passes one, or (recursively) this holds at every call site up to addBlob; a callee that increments on all its paths counts as an increment; `go` never does. Both placements (once in addBlob, or in every writer) are accepted; an uncovered writer is reported with function and location. (#inval-outside) a write of such a location in any other module function is allowed only under scanFromStorage; (#load-on-fresh-corpus) scanFromStorage runs only on a Corpus its caller just allocated, which is why the load path needs no increment; (#no-cache-reader) no cache builder is reachable from addBlob/scanFromStorage (undecided otherwise). (#derived) PermanodeMeta fields assigned by restoreInvariants (attr, signer) are derived from the other receiver fields it reads (Claims): on the live path every write of Claims on an existing permanode is followed, on every path to a return with building==false, by a call on the same permanode of a method that writes attr/signer (or a direct assignment); Corpus.building is assigned only by scanFromStorage and false on its success returns. (#order-invariant / #order:T.f) order invariants are discovered, not named: every in-place sort (sort.Sort/Stable/Slice/SliceStable, slices.Sort*) executed under a load entry (scanFromStorage for the corpus; initDeletesCacheLocked for the index's own deletion cache) on a slice that is, is an element of, or is stored into a struct field of index/corpus state (today PermanodeMeta.Claims by claim date, Corpus.deletes[target] and deletionCache.m[target] by deletion date, newest first) makes `sorted by that comparator` an invariant of the field; the comparator is identified by what it computes — its Less method / less function rendered symbolically over SLICE, I, J (sort.Reverse swaps I and J), e.g. call((time.Time).Before;SLICE[I].Date;SLICE[J].Date) — not by its type name. Every write of such a field reachable from the live entry (addBlob with building == false; Index.commit) must either store a value that was sorted by the same symbolic comparator on every path to the store, or be followed on every path to the return of the writing function (and, when the written object is a parameter, of its callers up to the live entry) by one of: the same sort of the same field of the same object (directly, or a call handing on the object or the slice to a function all of whose returns are so covered); the in-order edge of a comparison of the last two elements by the comparator's own key (Less(len-2,len-1) true or Less(len-1,len-2) false, also written out on the key fields, with After for Before, through a one-line helper, or kept in a local) — accepted only while the slice is `sorted + exactly one appended element`; an edge on which len(field) < 2 (== 0, == 1, <= 1; if or switch) is known, the length and elements having been read after the last write. A return reached otherwise is reported as `the live path can leave T.f unsorted; the load path sorts it`; a live sort of the field by another comparator is reported too; element stores and writes through aliases are undecided. " +
+			"NOT decided: that the merge functions compute from a row the same state live as at load for every history (e.g. the `building`-only update of hasLegacySHA1; that fixupLastClaim's incremental attribute update equals restoreInvariants' full rebuild; the relative order of elements the comparator considers equal — sort.Sort is not stable and the load path sees row order, the live path arrival order; order invariants that the load path gets from the row order of the sorted.KeyValue rather than from an explicit sort), that every reader of the caches holds the index lock, that the read set is exact (it is an over-approximation by type: e.g. any FileInfo.Time write counts), generation increments placed in callers of addBlob (reported as uncovered), equality of query answers for any concrete arrival history or sorted.KeyValue backend, behaviour of out-of-order arrival beyond the order clause, contents of rows.",
 		RuleDocs: map[string]string{
 			"K-tables":     "H6 table agreement over slurpPrefixes / corpusMergeFunc / written row kinds (+ separators), scan set, live-merge gate and dispatch",
 			"K-owner":      "H5 who-may-write: Index.deletes (+ its map), Index.needs/neededBy/readyReindex, Corpus fields, mutationMap.deletes; open path loads both caches",
 			"K-delete-row": "H2: noteDelete only where the 'deleted' row for the same claim was put into the same mutation map, and vice versa",
 			"K-live":       "H7/H3/H2: addBlob gets the committed mm, after commit success, under the write lock, and merges all of it; commit feeds caches only after CommitBatch; no slurped row kind bypasses commit",
-			"K-inval":      "H2 over the resolved call structure + abstract interpretation: every live write of a location the generation-stamped caches (lazySortedPermanodes, stamp ofGen vs Corpus.gen) are computed from passes a generation increment within addBlob; the caches are served only on the stamp==generation edge and stamped only with what they were built at; the generation only grows; other writers run only on a fresh corpus under scanFromStorage; PermanodeMeta.attr/signer are re-derived after every live write of Claims",
+			"K-inval":      "H2 over the resolved call structure + abstract interpretation: every live write of a location the generation-stamped caches (lazySortedPermanodes, stamp ofGen vs Corpus.gen) are computed from passes a generation increment within addBlob; the caches are served only on the stamp==generation edge and stamped only with what they were built at; the generation only grows; other writers run only on a fresh corpus under scanFromStorage; PermanodeMeta.attr/signer are re-derived after every live write of Claims; #order: every field the load path sorts in place (discovered; comparator compared symbolically) is, after every live write, re-sorted by the same comparator, or known in order from a last-two comparison by the comparator's key after a one-element append, or known shorter than 2, on every path to the return of the live maintenance functions",
 		},
 		Run:       runC06,
 		DesignRef: "DESIGN.md §4 C06",
-		Technique: "static analysis: table agreement extracted from the package initializer's SSA, who-may-write enumeration over field stores and map updates, dominance on error-nil edges, lockset, value dependence; for K-inval: field read/write sets by type over a resolved call graph (table dispatch, function-valued fields and parameters, callbacks), interprocedural must-pass-through (dominance or post-dominance of a generation increment at each level of the call chain), and a forward dataflow over the cache readers (stamp-valid / may-hold-old-content bits per cache field)",
-		LevelText: "Decides structural necessary conditions only: the live path and the restart path of the index deletion cache, the dependency maps and the corpus are driven by the same row kinds, the same rows and the same tables, and no other code writes those caches. Also decides that the lazily sorted permanode caches cannot outlive a change of anything they are computed from (one generation increment per update that writes an input, caches served only for the current generation) and that the per-permanode attribute caches are brought up to date after every live claim. Does not decide that both paths compute equal state for every arrival history, nor anything about concrete sorted.KeyValue backends.",
+		Technique: "static analysis: table agreement extracted from the package initializer's SSA, who-may-write enumeration over field stores and map updates, dominance on error-nil edges, lockset, value dependence; for K-inval: field read/write sets by type over a resolved call graph (table dispatch, function-valued fields and parameters, callbacks), interprocedural must-pass-through (dominance or post-dominance of a generation increment at each level of the call chain), and a forward dataflow over the cache readers (stamp-valid / may-hold-old-content bits per cache field); for the order clause: symbolic rendering of comparators (Less methods and less functions inlined over placeholders) to compare the load path's sorts with the live path's sorts and order checks, and a three-state path exploration (sorted / sorted plus one appended element / unknown) with branch facts, phi-resolved conditions and per-callee summaries",
+		LevelText: "Decides structural necessary conditions only: the live path and the restart path of the index deletion cache, the dependency maps and the corpus are driven by the same row kinds, the same rows and the same tables, and no other code writes those caches. Also decides that the lazily sorted permanode caches cannot outlive a change of anything they are computed from (one generation increment per update that writes an input, caches served only for the current generation) and that the per-permanode attribute caches are brought up to date after every live claim, and that every slice the load path sorts (claims of a permanode, deletions of a blob in the corpus and in the index cache) is left sorted by the same comparator by every live write, on every path. Does not decide that both paths compute equal state for every arrival history, nor anything about concrete sorted.KeyValue backends.",
 	})
 }
 
@@ -4191,8 +4191,14 @@ func c06RuleInval(cx *c06Ctx) {
 		r.Undecided(rule, FuncKey(scanFn)+"#value", p.Pos(uses[0].Pos()), "scanFromStorage is used as a function value")
 	}
 	n += c06RuleDerived(cx, live, all, sites)
+	// order invariants: the corpus (scanFromStorage vs addBlob, which runs with building == false:
+	// #building-false-when-live) and the index's own deletion cache (its loader vs commit)
+	n += c06RuleOrder(cx, load, live, all, sites, "scanFromStorage", "addBlob", c06AssumeNotBuilding(cx.tCorpus), 2)
+	initDel := p.Func(c06Rel, "Index", "initDeletesCacheLocked")
+	commit := p.Func(c06Rel, "Index", "commit")
+	n += c06RuleOrder(cx, cx.buildCG([]*ssa.Function{initDel}, false), cx.buildCG([]*ssa.Function{commit}, false), all, sites, "initDeletesCacheLocked", "Index.commit", nil, 1)
 	r.Analysed("inval_obligations", n)
-	r.Floor(rule, 20)
+	r.Floor(rule, 26) // 24 before the order clause + 3 order invariants + 3 ordered live writes, minus slack
 }
 
 // ---- eagerly maintained derived fields (PermanodeMeta.attr / .signer from .Claims)
@@ -4312,20 +4318,7 @@ func c06RuleDerived(cx *c06Ctx, live, all *c06CG, sites []c06WSite) int {
 		r.Check(bad == "", rule, FuncKey(scanFn)+"#building-false-when-live", p.Pos(scanFn.Pos()),
 			"Corpus.building is assigned only in scanFromStorage and is false on each of its success returns: the live path (addBlob) always runs with building == false", bad)
 	}
-	assume := func(cond ssa.Value) (bool, bool) {
-		neg := false
-		for {
-			if u, ok := cond.(*ssa.UnOp); ok && u.Op == token.NOT {
-				cond, neg = u.X, !neg
-				continue
-			}
-			break
-		}
-		if l, _, ok := c06DirectField(cond); ok && l.typ == tCorpus && l.field == "building" {
-			return true, neg // building is false
-		}
-		return false, false
-	}
+	assume := c06AssumeNotBuilding(tCorpus)
 	type wsite struct {
 		fn   *ssa.Function
 		in   ssa.Instruction
@@ -4403,6 +4396,1068 @@ func c06RuleDerived(cx *c06Ctx, live, all *c06CG, sites []c06WSite) int {
 	}
 	if len(ws) == 0 {
 		r.Violation(rule, FuncKey(rest)+"#derived-writers", p.Pos(rest.Pos()), "no live write of PermanodeMeta."+sn+" found under addBlob: claims no longer reach the live corpus")
+	}
+	return n
+}
+
+// c06AssumeNotBuilding: Corpus.building is false on the live path (#building-false-when-live).
+func c06AssumeNotBuilding(tCorpus *types.Named) func(ssa.Value) (bool, bool) {
+	return func(cond ssa.Value) (bool, bool) {
+		neg := false
+		for {
+			if u, ok := cond.(*ssa.UnOp); ok && u.Op == token.NOT {
+				cond, neg = u.X, !neg
+				continue
+			}
+			break
+		}
+		if l, _, ok := c06DirectField(cond); ok && l.typ == tCorpus && l.field == "building" {
+			return true, neg // building is false
+		}
+		return false, false
+	}
+}
+
+// ---- order invariants the load path establishes (K-inval #order)
+//
+// Discovery (nothing named): every in-place sort (sort.Sort/Stable/Slice/
+// SliceStable, slices.Sort*/SortFunc*) executed on a load path whose slice is
+// (an element of) a struct field of corpus/index state is an ORDER INVARIANT of
+// that field: after a restart the field is sorted by that comparator. The
+// comparator is not identified by name but by what it computes: the Less
+// method / less function is evaluated symbolically over the placeholders
+// SLICE, I, J (sort.Reverse swaps I and J), e.g.
+//     call((time.Time).Before;SLICE[I].Date;SLICE[J].Date).
+//
+// Obligation: every live write (assignment of the field, update of its map
+// entry) must, on every path from the write to the return of the writing
+// function — and, if the written object is a parameter, of its callers up to
+// the live entry — pass
+//   * the same sort (same symbolic comparator) of the same field of the same
+//     object, directly or in a callee all of whose returns are so covered, or
+//   * the "in order" edge of a comparison of the last two elements by the
+//     comparator's own key (effLess(len-2,len-1) true, effLess(len-1,len-2) false), or
+//   * an edge on which len(field) <= 1 is known,
+// or the written value must itself have been sorted by that comparator before
+// it is stored. Anything else: "the live path can leave <field> unsorted".
+
+type c06SortCall struct {
+	in    ssa.CallInstruction
+	fn    *ssa.Function
+	slice ssa.Value     // the slice handed to the sort, conversions stripped
+	rev   bool          // wrapped in sort.Reverse an odd number of times
+	kind  string        // "iface" (Less method), "lessfn" (func(i,j) bool), "cmpfn" (func(a,b) int), "natural"
+	cmp   *ssa.Function // Less method / less literal / cmp literal; nil if it cannot be named
+	name  string        // for reports
+}
+
+func c06StripConv(v ssa.Value) ssa.Value {
+	for i := 0; i < 16 && v != nil; i++ {
+		switch x := v.(type) {
+		case *ssa.ChangeType:
+			v = x.X
+		case *ssa.Convert:
+			v = x.X
+		case *ssa.MakeInterface:
+			v = x.X
+		default:
+			return v
+		}
+	}
+	return v
+}
+
+// c06LessMethod: the declared Less method of a named (non-interface) type.
+func (cx *c06Ctx) lessMethod(n *types.Named) *ssa.Function {
+	if _, isIface := n.Underlying().(*types.Interface); isIface {
+		return nil
+	}
+	for _, t := range []types.Type{n, types.NewPointer(n)} {
+		sel := cx.p.SSA.MethodSets.MethodSet(t).Lookup(n.Obj().Pkg(), "Less")
+		if sel == nil {
+			continue
+		}
+		if f := cx.p.SSA.MethodValue(sel); f != nil && f.Blocks != nil {
+			return f
+		}
+	}
+	return nil
+}
+
+func c06FuncValue(v ssa.Value) *ssa.Function {
+	switch x := originValue(v).(type) {
+	case *ssa.MakeClosure:
+		return x.Fn.(*ssa.Function)
+	case *ssa.Function:
+		return x
+	}
+	return nil
+}
+
+// parseSort recognises a call of one of the standard in-place sorts.
+func (cx *c06Ctx) parseSort(ci ssa.CallInstruction) *c06SortCall {
+	if _, isCall := ci.(*ssa.Call); !isCall {
+		return nil
+	}
+	cc := ci.Common()
+	f := cc.StaticCallee()
+	if f == nil {
+		return nil
+	}
+	key := c06ExternalKey(f)
+	sc := &c06SortCall{in: ci, fn: ci.Parent()}
+	switch key {
+	case "sort.Sort", "sort.Stable":
+		if len(cc.Args) != 1 {
+			return nil
+		}
+		sc.kind = "iface"
+		v := cc.Args[0]
+	peel:
+		for i := 0; i < 16; i++ {
+			if n, _ := v.Type().(*types.Named); n != nil && sc.cmp == nil {
+				if m := cx.lessMethod(n); m != nil {
+					sc.cmp, sc.name = m, n.Obj().Name()
+				}
+			}
+			switch x := v.(type) {
+			case *ssa.MakeInterface:
+				v = x.X
+			case *ssa.ChangeType:
+				v = x.X
+			case *ssa.Convert:
+				v = x.X
+			case *ssa.Call:
+				g := x.Call.StaticCallee()
+				if g == nil || c06ExternalKey(g) != "sort.Reverse" || len(x.Call.Args) != 1 {
+					break peel
+				}
+				sc.rev = !sc.rev
+				v = x.Call.Args[0]
+			case *ssa.UnOp:
+				if x.Op != token.MUL {
+					break peel
+				}
+				r := resolveLoad(x)
+				if r == nil {
+					break peel
+				}
+				v = r
+			default:
+				break peel
+			}
+		}
+		sc.slice = v
+		if sc.rev {
+			sc.name = "reverse " + sc.name
+		}
+	case "sort.Slice", "sort.SliceStable":
+		if len(cc.Args) != 2 {
+			return nil
+		}
+		sc.kind, sc.slice, sc.cmp, sc.name = "lessfn", c06StripConv(cc.Args[0]), c06FuncValue(cc.Args[1]), "less function"
+	case "slices.SortFunc", "slices.SortStableFunc":
+		if len(cc.Args) != 2 {
+			return nil
+		}
+		sc.kind, sc.slice, sc.cmp, sc.name = "cmpfn", c06StripConv(cc.Args[0]), c06FuncValue(cc.Args[1]), "compare function"
+	case "slices.Sort", "sort.Strings", "sort.Ints", "sort.Float64s":
+		if len(cc.Args) != 1 {
+			return nil
+		}
+		sc.kind, sc.slice, sc.name = "natural", c06StripConv(cc.Args[0]), "natural order"
+	default:
+		return nil
+	}
+	return sc
+}
+
+// -- symbolic rendering of comparison expressions
+
+type c06SymEnv struct {
+	fn      *ssa.Function
+	isSlice func(ssa.Value) bool // recognises the ordered slice in fn's own values
+	params  map[*ssa.Parameter]string
+	parent  *c06SymEnv // environment of the function that created this literal
+}
+
+// sym renders v as a canonical string over the placeholders SLICE / LEN /
+// parameter bindings. Dereferences are transparent (a place and its content
+// render alike); shapes that are not followed render as a unique "?…" string
+// that never equals anything else.
+func (cx *c06Ctx) sym(v ssa.Value, env *c06SymEnv, depth int) string {
+	if v == nil || depth > 40 {
+		return uniquePath(v)
+	}
+	if env.isSlice != nil && env.isSlice(v) {
+		return "SLICE"
+	}
+	rec := func(x ssa.Value) string { return cx.sym(x, env, depth+1) }
+	switch x := v.(type) {
+	case *ssa.Parameter:
+		if s, ok := env.params[x]; ok {
+			return s
+		}
+	case *ssa.FreeVar:
+		if b := bindingOf(x); b != nil && env.parent != nil {
+			return cx.sym(b, env.parent, depth+1)
+		}
+	case *ssa.Alloc:
+		if sts := storesTo(x); len(sts) == 1 {
+			return cx.sym(sts[0].Val, env, depth+1)
+		}
+	case *ssa.Const:
+		if x.Value == nil {
+			return "nil"
+		}
+		return x.Value.ExactString()
+	case *ssa.ChangeType:
+		return rec(x.X)
+	case *ssa.Convert:
+		return rec(x.X)
+	case *ssa.MakeInterface:
+		return rec(x.X)
+	case *ssa.UnOp:
+		switch x.Op {
+		case token.MUL:
+			if fv, isFV := x.X.(*ssa.FreeVar); isFV {
+				return rec(fv) // captured variable: rendered in the creating function's environment
+			}
+			if r := resolveLoad(x); r != nil {
+				return rec(r)
+			}
+			if _, isAlloc := x.X.(*ssa.Alloc); isAlloc {
+				return uniquePath(v)
+			}
+			return rec(x.X)
+		case token.NOT:
+			return "!" + rec(x.X)
+		}
+	case *ssa.FieldAddr:
+		return rec(x.X) + "." + fieldName(x.X.Type(), x.Field)
+	case *ssa.Field:
+		return rec(x.X) + "." + fieldName(x.X.Type(), x.Field)
+	case *ssa.IndexAddr:
+		return rec(x.X) + "[" + rec(x.Index) + "]"
+	case *ssa.Index:
+		return rec(x.X) + "[" + rec(x.Index) + "]"
+	case *ssa.Lookup:
+		if !x.CommaOk {
+			return rec(x.X) + "[" + rec(x.Index) + "]"
+		}
+	case *ssa.BinOp:
+		a, b := rec(x.X), rec(x.Y)
+		switch x.Op {
+		case token.GTR:
+			return "(" + b + " < " + a + ")"
+		case token.GEQ:
+			return "(" + b + " <= " + a + ")"
+		case token.SUB:
+			if k, ok := ConstInt(x.Y); ok && a == "LEN" {
+				return fmt.Sprintf("LEN-%d", k)
+			}
+		}
+		return "(" + a + " " + x.Op.String() + " " + b + ")"
+	case *ssa.Call:
+		cc := x.Common()
+		if bi, ok := cc.Value.(*ssa.Builtin); ok {
+			if bi.Name() == "len" && len(cc.Args) == 1 {
+				if a := rec(cc.Args[0]); a == "SLICE" {
+					return "LEN"
+				} else {
+					return "len(" + a + ")"
+				}
+			}
+			return uniquePath(v)
+		}
+		cs := CallSite{x.Parent(), x}
+		callee := cs.Callee()
+		if callee == nil {
+			return uniquePath(v)
+		}
+		args := cs.Args()
+		as := make([]string, len(args))
+		for i, a := range args {
+			as[i] = rec(a)
+		}
+		if s, ok := cx.symInline(callee, as, env, depth+1); ok {
+			return s
+		}
+		return c06SymCall(callee, as)
+	}
+	return uniquePath(v)
+}
+
+func c06SymCall(callee *ssa.Function, as []string) string {
+	name := callee.String()
+	if name == "(time.Time).After" && len(as) == 2 {
+		name, as = "(time.Time).Before", []string{as[1], as[0]}
+	}
+	return "call(" + name + ";" + strings.Join(as, ";") + ")"
+}
+
+// symInline: callee is a one-block function with a single result; render that
+// result with the parameters bound to as (receiver first).
+func (cx *c06Ctx) symInline(callee *ssa.Function, as []string, env *c06SymEnv, depth int) (string, bool) {
+	if callee == nil || len(callee.Blocks) != 1 || len(callee.Params) != len(as) || depth > 40 {
+		return "", false
+	}
+	if top := TopFunc(callee); top.Pkg != nil && !InModule(top) {
+		return "", false
+	}
+	ret, ok := c06LastInstr(callee.Blocks[0]).(*ssa.Return)
+	if !ok || len(ret.Results) != 1 {
+		return "", false
+	}
+	e2 := &c06SymEnv{fn: callee, params: map[*ssa.Parameter]string{}}
+	for i, prm := range callee.Params {
+		e2.params[prm] = as[i]
+	}
+	if callee.Parent() != nil && env != nil && callee.Parent() == env.fn {
+		e2.parent = env
+	}
+	return cx.sym(ret.Results[0], e2, depth+1), true
+}
+
+// sortLess renders "element at index i sorts before element at index j" for the comparator of sc.
+func (cx *c06Ctx) sortLess(sc *c06SortCall, env *c06SymEnv, i, j string) string {
+	if sc.rev {
+		i, j = j, i
+	}
+	switch sc.kind {
+	case "iface":
+		if sc.cmp == nil {
+			break
+		}
+		if s, ok := cx.symInline(sc.cmp, []string{"SLICE", i, j}, env, 0); ok {
+			return s
+		}
+		return c06SymCall(sc.cmp, []string{"SLICE", i, j})
+	case "lessfn":
+		if s, ok := cx.symInline(sc.cmp, []string{i, j}, env, 0); ok {
+			return s
+		}
+	case "cmpfn":
+		as := []string{"SLICE[" + i + "]", "SLICE[" + j + "]"}
+		if s, ok := cx.symInline(sc.cmp, as, env, 0); ok {
+			return "(" + s + " < 0)"
+		}
+		if sc.cmp != nil {
+			return "(" + c06SymCall(sc.cmp, as) + " < 0)"
+		}
+	case "natural":
+		return "(SLICE[" + i + "] < SLICE[" + j + "])"
+	}
+	return uniquePath(sc.in.Value())
+}
+
+// sortSig: the comparator of sc, with sc's own slice as SLICE.
+func (cx *c06Ctx) sortSig(sc *c06SortCall, i, j string) string {
+	self := c06StripConv(originValue(sc.slice))
+	env := &c06SymEnv{fn: sc.fn, isSlice: func(v ssa.Value) bool {
+		return v == sc.slice || c06StripConv(originValue(v)) == self
+	}}
+	return cx.sortLess(sc, env, i, j)
+}
+
+type c06OrdInv struct {
+	loc    c06Loc
+	sig    string // effLess(I, J)
+	pl, lp string // effLess(LEN-2, LEN-1), effLess(LEN-1, LEN-2)
+	name   string
+	loadFn *ssa.Function
+	pos    token.Pos
+}
+
+// c06StateLocs: the struct fields of in-scope types that slice value v is (an element of), or is stored into.
+func c06StateLocs(v ssa.Value) []c06Loc {
+	var out []c06Loc
+	add := func(l c06Loc) {
+		if l.typ == nil || l.field == "[]" || l.field == "*" || !c06InScope(l.typ) {
+			return
+		}
+		if _, isStruct := l.typ.Underlying().(*types.Struct); !isStruct {
+			return
+		}
+		for _, x := range out {
+			if x == l {
+				return
+			}
+		}
+		out = append(out, l)
+	}
+	for _, l := range c06Roots(v).locs {
+		add(l)
+	}
+	o := c06StripConv(originValue(v))
+	if refs := o.Referrers(); refs != nil {
+		for _, ref := range *refs {
+			switch x := ref.(type) {
+			case *ssa.Store:
+				if x.Val == o {
+					if n, f, _, ok := c06FieldOf(x.Addr); ok {
+						add(c06Loc{n, f})
+					}
+				}
+			case *ssa.MapUpdate:
+				if x.Value == o {
+					if l, _, ok := c06DirectField(x.Map); ok {
+						add(l)
+					}
+				}
+			}
+		}
+	}
+	return out
+}
+
+// orderInvariants: the order invariants established under the load entry of g.
+func (cx *c06Ctx) orderInvariants(g *c06CG, rule string) []*c06OrdInv {
+	var out []*c06OrdInv
+	for _, fn := range g.order {
+		for _, b := range fn.Blocks {
+			for _, in := range b.Instrs {
+				ci, ok := in.(ssa.CallInstruction)
+				if !ok {
+					continue
+				}
+				sc := cx.parseSort(ci)
+				if sc == nil {
+					continue
+				}
+				locs := c06StateLocs(sc.slice)
+				if len(locs) == 0 {
+					continue
+				}
+				sig := cx.sortSig(sc, "I", "J")
+				for _, l := range locs {
+					if strings.Contains(sig, "?") {
+						cx.r.Undecided(rule, FuncKey(fn)+"#order-invariant:"+l.String(), cx.p.Pos(in.Pos()), "the load path sorts "+l.String()+" here, but its comparator ("+sc.name+") cannot be rendered symbolically: the order the live path has to maintain is unknown")
+						continue
+					}
+					dup := false
+					for _, x := range out {
+						if x.loc == l && x.sig == sig {
+							dup = true
+						}
+					}
+					if dup {
+						continue
+					}
+					out = append(out, &c06OrdInv{loc: l, sig: sig, pl: cx.sortSig(sc, "LEN-2", "LEN-1"), lp: cx.sortSig(sc, "LEN-1", "LEN-2"), name: sc.name, loadFn: fn, pos: in.Pos()})
+				}
+			}
+		}
+	}
+	return out
+}
+
+// -- the ordered slice as seen from one function
+
+type c06OrdMode struct {
+	inv  *c06OrdInv
+	base ssa.Value // the struct owning the field (nil: any object)
+	key  ssa.Value // the field is a map of slices: the key of the entry
+	val  ssa.Value // value mode: the slice is this very value (a parameter of a helper)
+	// pairOK: the slice is "sorted, then exactly one element appended", so that comparing the
+	// last two elements decides sortedness. False after any other kind of write.
+	pairOK bool
+}
+
+func (m c06OrdMode) fieldLoad(v ssa.Value, loads *[]ssa.Instruction) bool {
+	u, ok := v.(*ssa.UnOp)
+	if !ok || u.Op != token.MUL {
+		return false
+	}
+	n, f, b, ok := c06FieldOf(u.X)
+	if !ok || n != m.inv.loc.typ || f != m.inv.loc.field {
+		return false
+	}
+	if m.base != nil && !c06SamePlace(b, m.base) {
+		return false
+	}
+	if loads != nil {
+		*loads = append(*loads, u)
+	}
+	return true
+}
+
+func (m c06OrdMode) isSlice(loads *[]ssa.Instruction) func(ssa.Value) bool {
+	return func(v ssa.Value) bool {
+		switch {
+		case m.val != nil:
+			return v == m.val || originValue(v) == m.val
+		case m.key != nil:
+			var x, k ssa.Value
+			switch l := v.(type) {
+			case *ssa.Lookup:
+				if l.CommaOk {
+					return false
+				}
+				x, k = l.X, l.Index
+			case *ssa.Extract:
+				lk, ok := l.Tuple.(*ssa.Lookup)
+				if !ok || l.Index != 0 {
+					return false
+				}
+				x, k = lk.X, lk.Index
+			default:
+				return false
+			}
+			return sameOrigin(k, m.key) && m.fieldLoad(x, loads)
+		default:
+			return m.fieldLoad(v, loads)
+		}
+	}
+}
+
+type c06OrdLeak struct {
+	ret   ssa.Instruction
+	notes []string
+}
+
+type c06EnsRes struct {
+	ok  bool
+	why string
+}
+
+type c06OrdWalk struct {
+	cx      *c06Ctx
+	inv     *c06OrdInv
+	all     *c06CG
+	wr      map[ssa.Instruction]bool // direct writes of the field
+	writesF map[*ssa.Function]bool   // functions from which such a write is reachable
+	sorters map[*ssa.Function]bool   // functions from which a sort by the invariant's comparator is reachable
+	assume  func(ssa.Value) (bool, bool)
+	ens     map[string]*c06EnsRes
+	inprog  map[string]bool
+	reach   map[ssa.Instruction]map[ssa.Instruction]bool
+}
+
+func (w *c06OrdWalk) reachable(from ssa.Instruction) map[ssa.Instruction]bool {
+	if r, ok := w.reach[from]; ok {
+		return r
+	}
+	r := ReachableFrom(from, nil)
+	w.reach[from] = r
+	return r
+}
+
+func (w *c06OrdWalk) isWriteEvent(in ssa.Instruction) bool {
+	if w.wr[in] {
+		return true
+	}
+	if ci, ok := in.(ssa.CallInstruction); ok {
+		for _, callee := range w.all.out[ci] {
+			if w.writesF[callee] {
+				return true
+			}
+		}
+	}
+	return false
+}
+
+// writeBetween: some write of the field may execute after `from` and before `to`.
+func (w *c06OrdWalk) writeBetween(from, to ssa.Instruction) bool {
+	after := w.reachable(from)
+	for _, b := range from.Parent().Blocks {
+		for _, x := range b.Instrs {
+			if x != to && after[x] && w.isWriteEvent(x) && w.reachable(x)[to] {
+				return true
+			}
+		}
+	}
+	return false
+}
+
+// factOrdered: on the edge (cond == val) the slice is known to be in order:
+// at most one element, or the last two elements compare in order by the
+// comparator's key.
+func (w *c06OrdWalk) factOrdered(at ssa.Instruction, cond ssa.Value, val bool, m c06OrdMode) (ordered, byPair bool) {
+	for {
+		u, ok := cond.(*ssa.UnOp)
+		if !ok || u.Op != token.NOT {
+			break
+		}
+		cond, val = u.X, !val
+	}
+	var loads []ssa.Instruction
+	env := &c06SymEnv{fn: at.Parent(), isSlice: m.isSlice(&loads)}
+	if bo, ok := cond.(*ssa.BinOp); ok {
+		op := bo.Op
+		var k int64
+		isLen := false
+		if kk, isK := ConstInt(bo.Y); isK && w.cx.sym(bo.X, env, 0) == "LEN" {
+			k, isLen = kk, true
+		} else if kk, isK := ConstInt(bo.X); isK && w.cx.sym(bo.Y, env, 0) == "LEN" {
+			k, isLen = kk, true
+			switch op { // k op LEN  ==  LEN op' k
+			case token.LSS:
+				op = token.GTR
+			case token.LEQ:
+				op = token.GEQ
+			case token.GTR:
+				op = token.LSS
+			case token.GEQ:
+				op = token.LEQ
+			}
+		}
+		if isLen {
+			if !val {
+				switch op {
+				case token.LSS:
+					op = token.GEQ
+				case token.LEQ:
+					op = token.GTR
+				case token.GTR:
+					op = token.LEQ
+				case token.GEQ:
+					op = token.LSS
+				case token.EQL:
+					op = token.NEQ
+				case token.NEQ:
+					op = token.EQL
+				}
+			}
+			switch op {
+			case token.LSS:
+				ordered = k <= 2
+			case token.LEQ, token.EQL:
+				ordered = k <= 1
+			}
+		}
+	}
+	if !ordered {
+		s := w.cx.sym(cond, env, 0)
+		ordered = val && s == m.inv.pl || !val && s == m.inv.lp
+		byPair = ordered
+	}
+	if !ordered {
+		return false, false
+	}
+	// what was read must still be what the field holds
+	for _, ld := range loads {
+		if ld.Parent() == at.Parent() && w.writeBetween(ld, at) {
+			return false, false
+		}
+	}
+	return ordered, byPair
+}
+
+// establishes: executing `in` leaves the slice sorted by the invariant's comparator.
+func (w *c06OrdWalk) establishes(in ssa.Instruction, m c06OrdMode) (bool, string) {
+	call, ok := in.(*ssa.Call)
+	if !ok {
+		return false, ""
+	}
+	cx := w.cx
+	env := &c06SymEnv{fn: in.Parent(), isSlice: m.isSlice(nil)}
+	if sc := cx.parseSort(call); sc != nil {
+		if cx.sym(sc.slice, env, 0) != "SLICE" {
+			return false, ""
+		}
+		if cx.sortSig(sc, "I", "J") == m.inv.sig {
+			return true, ""
+		}
+		return false, fmt.Sprintf("the sort at line %d orders it by %s, not by %s as the load path does", cx.p.Fset.Position(in.Pos()).Line, sc.name, m.inv.name)
+	}
+	c := CallSite{in.Parent(), call}
+	callee := c.Callee()
+	if callee == nil || callee.Blocks == nil {
+		return false, ""
+	}
+	note := ""
+	for i, a := range c.Args() {
+		if i >= len(callee.Params) {
+			break
+		}
+		sliceMode := false
+		switch {
+		case m.val == nil && m.key == nil && m.base != nil && NamedOf(a.Type()) == m.inv.loc.typ && c06SamePlace(a, m.base):
+		case c06IsSliceType(a.Type()) && cx.sym(a, env, 0) == "SLICE":
+			sliceMode = true
+		default:
+			continue
+		}
+		res := w.ensures(callee, i, sliceMode, m.pairOK)
+		if res.ok {
+			return true, ""
+		}
+		if w.sorters[callee] {
+			note = "the call of " + c06FnName(callee) + " does not re-establish the order: " + res.why
+		}
+	}
+	return false, note
+}
+
+func c06IsSliceType(t types.Type) bool {
+	_, ok := t.Underlying().(*types.Slice)
+	return ok
+}
+
+// ensures: every return of callee leaves the slice (field of parameter i, or parameter i itself) sorted.
+func (w *c06OrdWalk) ensures(callee *ssa.Function, i int, sliceMode, pairOK bool) *c06EnsRes {
+	key := fmt.Sprintf("%p/%d/%v/%v", callee, i, sliceMode, pairOK)
+	if r, ok := w.ens[key]; ok {
+		return r
+	}
+	if w.inprog[key] {
+		return &c06EnsRes{false, "recursive"}
+	}
+	w.inprog[key] = true
+	defer delete(w.inprog, key)
+	m := c06OrdMode{inv: w.inv, pairOK: pairOK}
+	if sliceMode {
+		m.val = callee.Params[i]
+	} else {
+		m.base = callee.Params[i]
+	}
+	res := &c06EnsRes{ok: true}
+	if lk := w.leaks(callee.Blocks[0], 0, m); len(lk) > 0 {
+		res.ok, res.why = false, w.describe(callee, lk[0])
+	}
+	w.ens[key] = res
+	return res
+}
+
+func (w *c06OrdWalk) describe(fn *ssa.Function, lk c06OrdLeak) string {
+	s := fmt.Sprintf("the return at line %d of %s is reached with neither that sort, nor an order check of the last two elements (which only counts after a single one-element append to the sorted slice), nor a known length below 2", w.cx.p.Fset.Position(lk.ret.Pos()).Line, c06FnName(fn))
+	if len(lk.notes) > 0 {
+		s += " (" + strings.Join(c06Dedupe(lk.notes), "; ") + ")"
+	}
+	return s
+}
+
+// leaks: the returns reachable from (b, from) on a path whose last relevant
+// event is not one that leaves the slice sorted.
+func (w *c06OrdWalk) leaks(b *ssa.BasicBlock, from int, m c06OrdMode) []c06OrdLeak {
+	// est: 0 = not known sorted, "sorted + one appended element" (a comparison of the last two decides);
+	//      1 = sorted; 2 = not known sorted, and more than one write since it last was
+	const (
+		needPair = 0
+		sorted   = 1
+		needSort = 2
+	)
+	type st struct {
+		b    *ssa.BasicBlock
+		pred *ssa.BasicBlock
+		est  int
+	}
+	seen := map[st]bool{}
+	var out []c06OrdLeak
+	var notes []string
+	var walk func(b *ssa.BasicBlock, from int, pred *ssa.BasicBlock, est int)
+	after := func(est int, x *ssa.If, cond ssa.Value, val bool) int {
+		if est == sorted {
+			return sorted
+		}
+		if ok, byPair := w.factOrdered(x, cond, val, m); ok && (!byPair || est == needPair) {
+			return sorted
+		}
+		return est
+	}
+	visit := func(s, pred *ssa.BasicBlock, est int) {
+		k := st{s, pred, est}
+		if seen[k] {
+			return
+		}
+		seen[k] = true
+		walk(s, 0, pred, est)
+	}
+	walk = func(b *ssa.BasicBlock, from int, pred *ssa.BasicBlock, est int) {
+		for i := from; i < len(b.Instrs); i++ {
+			in := b.Instrs[i]
+			switch x := in.(type) {
+			case *ssa.Return:
+				if est != sorted {
+					out = append(out, c06OrdLeak{ret: x})
+				}
+				return
+			case *ssa.Panic:
+				return
+			case *ssa.If:
+				cond := x.Cond
+				// a condition materialised through a phi of this block (a || b stored in a variable)
+				if ph, ok := cond.(*ssa.Phi); ok && ph.Block() == b && pred != nil {
+					for pi, p := range b.Preds {
+						if p == pred && pi < len(ph.Edges) {
+							cond = ph.Edges[pi]
+						}
+					}
+				}
+				if c, ok := cond.(*ssa.Const); ok && c.Value != nil {
+					if c.Value.String() == "true" {
+						visit(b.Succs[0], b, est)
+					} else {
+						visit(b.Succs[1], b, est)
+					}
+					return
+				}
+				if w.assume != nil {
+					if known, val := w.assume(cond); known {
+						if val {
+							visit(b.Succs[0], b, est)
+						} else {
+							visit(b.Succs[1], b, est)
+						}
+						return
+					}
+				}
+				visit(b.Succs[0], b, after(est, x, cond, true))
+				visit(b.Succs[1], b, after(est, x, cond, false))
+				return
+			}
+			mm := m
+			mm.pairOK = est == needPair
+			if ok, note := w.establishes(in, mm); ok {
+				est = sorted
+				continue
+			} else if note != "" {
+				notes = append(notes, note)
+			}
+			if w.isWriteEvent(in) {
+				est = needSort // a further write of unknown form: only a sort (or a length below 2) helps now
+			}
+		}
+		for _, s := range b.Succs {
+			visit(s, b, est)
+		}
+	}
+	start := needSort
+	if m.pairOK {
+		start = needPair
+	}
+	walk(b, from, nil, start)
+	for i := range out {
+		out[i].notes = notes
+	}
+	return out
+}
+
+// climb: the function leaves the slice of its parameter i unsorted on some
+// return; every call of it on the live path must be followed by an
+// order-restoring event in the caller (recursively, up to the live entry).
+func (w *c06OrdWalk) climb(fn *ssa.Function, i int, pairOK bool, live *c06CG, root *ssa.Function, depth int) (bool, string) {
+	if fn == root || depth > 6 {
+		return false, ""
+	}
+	callers := live.in[fn]
+	if len(callers) == 0 {
+		return false, ""
+	}
+	for _, cs := range callers {
+		args := cs.Args()
+		if live.callback[cs.Instr] || i >= len(args) || cs.IsGo() || cs.IsDefer() {
+			return false, "its caller " + c06FnName(cs.Fn) + " cannot be followed"
+		}
+		lk := w.leaks(cs.Instr.Block(), instrIndex(cs.Instr)+1, c06OrdMode{inv: w.inv, base: args[i], pairOK: pairOK})
+		if len(lk) == 0 {
+			continue
+		}
+		if prm, isParam := originValue(args[i]).(*ssa.Parameter); isParam {
+			up := false
+			for j, fp := range cs.Fn.Params {
+				if fp == prm {
+					if ok, _ := w.climb(cs.Fn, j, pairOK, live, root, depth+1); ok {
+						up = true
+					}
+				}
+			}
+			if up {
+				continue
+			}
+		}
+		return false, "after the call in " + c06FnName(cs.Fn) + ", " + w.describe(cs.Fn, lk[0])
+	}
+	return true, ""
+}
+
+// appendsOne: the value written is append(<the slice as it was>, one element).
+func (cx *c06Ctx) appendsOne(val ssa.Value, m c06OrdMode) bool {
+	call, ok := originValue(val).(*ssa.Call)
+	if !ok {
+		return false
+	}
+	bi, ok := call.Call.Value.(*ssa.Builtin)
+	if !ok || bi.Name() != "append" || len(call.Call.Args) != 2 {
+		return false
+	}
+	env := &c06SymEnv{fn: call.Parent(), isSlice: m.isSlice(nil)}
+	if cx.sym(call.Call.Args[0], env, 0) != "SLICE" {
+		return false
+	}
+	sl, ok := call.Call.Args[1].(*ssa.Slice)
+	if !ok || sl.Low != nil || sl.High != nil {
+		return false
+	}
+	al, ok := sl.X.(*ssa.Alloc)
+	if !ok {
+		return false
+	}
+	pt, ok := al.Type().Underlying().(*types.Pointer)
+	if !ok {
+		return false
+	}
+	arr, ok := pt.Elem().Underlying().(*types.Array)
+	return ok && arr.Len() == 1
+}
+
+// c06RuleOrder checks one (load entry, live entry) pair.
+func c06RuleOrder(cx *c06Ctx, load, live, all *c06CG, sites []c06WSite, loadName, liveName string, assume func(ssa.Value) (bool, bool), minInv int) int {
+	const rule = "K-inval"
+	p, r := cx.p, cx.r
+	n := 0
+	invs := cx.orderInvariants(load, rule)
+	if len(invs) < minInv {
+		n++
+		r.Undecided(rule, FuncKey(load.roots[0])+"#order-invariants", p.Pos(load.roots[0].Pos()), fmt.Sprintf("only %d in-place sort(s) of state fields found under %s (at least %d expected): the load path no longer sorts what it used to, or sorts in a form this rule cannot follow; the order clause has nothing to compare the live path with", len(invs), loadName, minInv))
+	}
+	root := live.roots[0]
+	for _, inv := range invs {
+		n++
+		r.OKTable(rule, FuncKey(inv.loadFn)+"#order-invariant:"+inv.loc.String(), p.Pos(inv.pos), fmt.Sprintf("the load path (%s) leaves %s sorted by %s: element i precedes element j when %s", loadName, inv.loc, inv.name, inv.sig))
+		w := &c06OrdWalk{cx: cx, inv: inv, all: all, wr: map[ssa.Instruction]bool{}, writesF: map[*ssa.Function]bool{}, sorters: map[*ssa.Function]bool{}, assume: assume,
+			ens: map[string]*c06EnsRes{}, inprog: map[string]bool{}, reach: map[ssa.Instruction]map[ssa.Instruction]bool{}}
+		for _, s := range sites {
+			if s.loc != inv.loc {
+				continue
+			}
+			if ci, isCall := s.in.(*ssa.Call); isCall {
+				if sc := cx.parseSort(ci); sc != nil && cx.sortSig(sc, "I", "J") == inv.sig {
+					w.sorters[s.fn] = true
+					continue // a sort by the invariant's own comparator never disorders
+				}
+			}
+			w.wr[s.in] = true
+			w.writesF[s.fn] = true
+		}
+		for _, set := range []map[*ssa.Function]bool{w.writesF, w.sorters} {
+			for changed := true; changed; {
+				changed = false
+				for ci, callees := range all.out {
+					if all.callback[ci] || set[ci.Parent()] {
+						continue
+					}
+					for _, c := range callees {
+						if set[c] {
+							set[ci.Parent()] = true
+							changed = true
+						}
+					}
+				}
+			}
+		}
+		done := map[ssa.Instruction]bool{}
+		seen := map[string]bool{}
+		nW := 0
+		for _, s := range sites {
+			if s.loc != inv.loc || !live.funcs[s.fn] || done[s.in] {
+				continue
+			}
+			done[s.in] = true
+			fn := s.fn
+			construct := FuncKey(fn) + "#order:" + inv.loc.String()
+			site := p.Pos(s.in.Pos())
+			var m c06OrdMode
+			var val ssa.Value
+			switch x := s.in.(type) {
+			case *ssa.Store:
+				nn, f, base, ok := c06FieldOf(x.Addr)
+				if !ok || nn != inv.loc.typ || f != inv.loc.field {
+					n++
+					r.Undecided(rule, construct, site, c06FnName(fn)+" "+s.how+" "+inv.loc.String()+" on the live path in a form (element store / store through a pointer) whose effect on the order cannot be followed; the load path sorts it by "+inv.name)
+					continue
+				}
+				if IsNilConst(x.Val) {
+					continue // emptied: trivially sorted
+				}
+				m, val = c06OrdMode{inv: inv, base: base}, x.Val
+			case *ssa.MapUpdate:
+				l, base, ok := c06DirectField(x.Map)
+				if !ok || l != inv.loc {
+					n++
+					r.Undecided(rule, construct, site, c06FnName(fn)+" "+s.how+" "+inv.loc.String()+" on the live path through a reference that is not the field itself; the effect on the order cannot be followed")
+					continue
+				}
+				if IsNilConst(x.Value) {
+					continue
+				}
+				m, val = c06OrdMode{inv: inv, base: base, key: x.Key}, x.Value
+			case *ssa.Call:
+				if bi, ok := x.Call.Value.(*ssa.Builtin); ok && (bi.Name() == "delete" || bi.Name() == "clear") {
+					continue // removes whole entries
+				}
+				if ok, _ := (w.establishes(x, c06OrdMode{inv: inv})); ok {
+					continue // the sort itself (or a helper that always ends sorted)
+				}
+				sc := cx.parseSort(x)
+				if sc != nil && (cx.sortSig(sc, "I", "J") == inv.sig || !c06OrdMode{inv: inv}.fieldLoad(c06StripConv(sc.slice), nil)) {
+					continue // same order; or a local copy is sorted: the store of that copy is judged
+				}
+				n++
+				if sc != nil {
+					r.Violation(rule, construct, site, fmt.Sprintf("%s re-orders %s on the live path by %s, the load path (%s) sorts it by %s (%s): after a restart the elements are in a different order", c06FnName(fn), inv.loc, sc.name, loadName, inv.name, inv.sig))
+				} else {
+					r.Undecided(rule, construct, site, c06FnName(fn)+" "+s.how+" "+inv.loc.String()+" on the live path; whether it stays sorted by "+inv.name+" cannot be followed")
+				}
+				continue
+			default:
+				n++
+				r.Undecided(rule, construct, site, c06FnName(fn)+" "+s.how+" "+inv.loc.String()+" on the live path in a form whose effect on the order cannot be followed")
+				continue
+			}
+			nW++
+			m.pairOK = cx.appendsOne(val, m)
+			okWhy, bad := "", ""
+			// (i) the stored value was sorted by the same comparator before it is stored
+			sv := c06StripConv(originValue(val))
+			for _, b := range fn.Blocks {
+				for _, in := range b.Instrs {
+					ci, isCall := in.(*ssa.Call)
+					if !isCall || okWhy != "" {
+						continue
+					}
+					if sc := cx.parseSort(ci); sc != nil && c06StripConv(originValue(sc.slice)) == sv && Precedes(in, s.in) && cx.sortSig(sc, "I", "J") == inv.sig {
+						okWhy = fmt.Sprintf("the value stored was sorted by the same comparator (%s) on every path to the store", sc.name)
+					}
+				}
+			}
+			if okWhy == "" {
+				// (ii) every path onwards passes the sort or an in-order fact
+				lk := w.leaks(s.in.Block(), instrIndex(s.in)+1, m)
+				switch {
+				case len(lk) == 0:
+					okWhy = "every path from this write to a return of " + c06FnName(fn) + " passes the same sort (directly or in a callee all of whose returns are so covered), the in-order edge of a comparison of the last two elements by the comparator's key, or an edge on which the length is below 2"
+				default:
+					bad = w.describe(fn, lk[0])
+					if prm, isParam := originValue(m.base).(*ssa.Parameter); isParam && m.key == nil {
+						for j, fp := range fn.Params {
+							if fp == prm {
+								if ok, why := w.climb(fn, j, m.pairOK, live, root, 0); ok {
+									bad, okWhy = "", "not within "+c06FnName(fn)+", but every call of it under "+liveName+" is followed by the sort or an in-order fact on the same object"
+								} else if why != "" {
+									bad += "; " + why
+								}
+							}
+						}
+					}
+				}
+			}
+			if bad == "" && seen[construct] {
+				continue
+			}
+			seen[construct] = true
+			n++
+			if bad == "" {
+				r.OK(rule, construct, site, fmt.Sprintf("live write of %s (sorted by %s on the load path): %s", inv.loc, inv.name, okWhy))
+			} else {
+				r.Violation(rule, construct, site, fmt.Sprintf("the live path can leave %s unsorted; the load path sorts it (%s, by %s: %s): %s %s it and %s. The running corpus/index then holds the elements in arrival order where a restart over the same rows holds them sorted, and every reader that relies on the order (newest claim last, latest deletion first) answers differently", inv.loc, c06FnName(inv.loadFn), inv.name, inv.sig, c06FnName(fn), s.how, bad))
+			}
+		}
+		if nW == 0 {
+			n++
+			r.Undecided(rule, FuncKey(root)+"#order-writers:"+inv.loc.String(), p.Pos(root.Pos()), "no assignment of "+inv.loc.String()+" (which "+loadName+" sorts) found under "+liveName+": the live path updates it in a form this rule does not follow, or not at all")
+		}
 	}
 	return n
 }
